@@ -22,10 +22,40 @@ const TwinSuffix = "__d"
 // Walker walks an operation together with a response tree (CollectFields of the GraphQL spec
 // over fedlab's structured operations).
 type Walker struct {
+	// Requires: "Type.field" -> names of the fields its @requires selection lists
+	Requires map[string][]string
 	S     *fedlab.Schema
 	Op    *Op
 	P     map[string]bool
 	frags map[string]*fedlab.FragDef
+	// PlanIdx: response key path ("/a/b", list levels transparent) -> "Parent.field" of the plan's
+	// fields at that path (FieldInfo.ExactParentTypeName + Name).  Used only to tell which of the
+	// two plan-time readings of an occurrence on an abstract type the planner produced: the
+	// abstract type itself, or -- when it rewrote the abstract selection per possible type -- the
+	// concrete type.
+	PlanIdx map[string]map[string]bool
+}
+
+// CoordOf is the plan-time coordinate (ExactParentTypeName, field) of an occurrence of field f
+// whose static enclosing type is enc, at response key path kp, for an object of runtime type rt.
+func (w *Walker) CoordOf(kp, enc, rt, f string) string {
+	if et := w.S.Type(enc); et != nil && et.Kind != fedlab.KObject && w.PlanIdx != nil {
+		if w.PlanIdx[kp][rt+"."+f] {
+			return rt + "." + f
+		}
+	}
+	return enc + "." + f
+}
+
+func keyPathOf(p []PathEl) string {
+	var sb strings.Builder
+	for _, e := range p {
+		if !e.IsIdx {
+			sb.WriteString("/")
+			sb.WriteString(e.Key)
+		}
+	}
+	return sb.String()
 }
 
 func NewWalker(s *fedlab.Schema, op *Op, P map[string]bool) *Walker {
@@ -208,6 +238,7 @@ type Analysis struct {
 	Protected     int // visited positions that carry a rule
 	AbstractProt  int // ... whose enclosing (plan-time) type is abstract
 	TwoPathProt   int // ... reached through more than one occurrence
+	Dependent     [][]PathEl // allowed positions whose field @requires a field that is denied (pre-fetch mode)
 	underDenied   map[string]bool
 	legit         []string
 }
@@ -259,8 +290,15 @@ func (w *Walker) Analyze(shadow *fedlab.J, mode Mode, d Decisions) *Analysis {
 			}
 			nProt, nDen := 0, 0
 			denCoord := ""
+			kp := keyPathOf(p)
+			firstTF := ""
 			for _, o := range g.Occs {
-				tf := o.Enc + "." + g.Name
+				tf := w.CoordOf(kp, o.Enc, rt, g.Name)
+				if firstTF == "" {
+					firstTF = tf
+				} else if tf != firstTF && (w.P[tf] || w.P[firstTF]) {
+					a.MultiCoord = true
+				}
 				if !w.P[tf] {
 					continue
 				}
@@ -287,7 +325,7 @@ func (w *Walker) Analyze(shadow *fedlab.J, mode Mode, d Decisions) *Analysis {
 					a.TwoPathProt++
 				}
 				for _, o := range g.Occs {
-					if et := w.S.Type(o.Enc); et != nil && et.Kind != fedlab.KObject && w.P[o.Enc+"."+g.Name] {
+					if et := w.S.Type(o.Enc); et != nil && et.Kind != fedlab.KObject && w.P[w.CoordOf(kp, o.Enc, rt, g.Name)] {
 						a.AbstractProt++
 						break
 					}
@@ -296,15 +334,16 @@ func (w *Walker) Analyze(shadow *fedlab.J, mode Mode, d Decisions) *Analysis {
 			if nProt > 0 && nProt < len(g.Occs) {
 				a.Mixed = true
 			}
-			if nProt > 0 {
-				for _, o := range g.Occs {
-					if o.Enc != g.Occs[0].Enc {
-						a.MultiCoord = true
-					}
-				}
-			}
 			if nDen > 0 && nDen < len(g.Occs) {
 				a.Mixed = true
+			}
+			if nDen == 0 && mode == Pre {
+				for _, rf := range w.Requires[rt+"."+g.Name] {
+					if w.P[rt+"."+rf] && d[rt+"."+rf] {
+						a.Dependent = append(a.Dependent, p)
+						break
+					}
+				}
 			}
 			if nDen > 0 {
 				a.Denied = append(a.Denied, p)
@@ -396,15 +435,37 @@ func (w *Walker) Instrumented() *Op {
 	return c
 }
 
+// inlineSpreads replaces every named fragment spread by the equivalent inline fragment, so that
+// each field occurrence has one response key path.
+func (w *Walker) inlineSpreads(sels []*fedlab.Sel, depth int) []*fedlab.Sel {
+	var out []*fedlab.Sel
+	for _, s := range sels {
+		c := *s
+		if depth < 64 {
+			if s.Kind == fedlab.SSpread {
+				if f := w.frags[s.Name]; f != nil {
+					c = fedlab.Sel{Kind: fedlab.SInline, On: f.On, Dirs: s.Dirs, Sels: w.inlineSpreads(f.Sels, depth+1)}
+					out = append(out, &c)
+					continue
+				}
+			}
+			c.Sels = w.inlineSpreads(s.Sels, depth+1)
+		}
+		out = append(out, &c)
+	}
+	return out
+}
+
 // Reference returns the operation whose monolithic execution over the twin universe is the
 // expected response under the decisions: every occurrence that the mode denies selects the
 // always-failing twin field under the same response key, so the denial null-propagates by the
-// executor's ordinary rules.  In post-fetch mode an occurrence on an abstract type whose
-// possible types are denied only in part is split into one inline fragment per possible type.
+// executor's ordinary rules.  An occurrence whose possible runtime types are denied only in part
+// (post-fetch mode: the coordinate is the runtime type; pre-fetch mode: the planner rewrote the
+// abstract selection per type) is split into one inline fragment per possible type.
 func (w *Walker) Reference(mode Mode, d Decisions) *Op {
-	c := w.Op.Clone()
-	var rw func(sels []*fedlab.Sel, enc string, depth int) []*fedlab.Sel
-	rw = func(sels []*fedlab.Sel, enc string, depth int) []*fedlab.Sel {
+	c := &Op{Kind: w.Op.Kind, Operation: &fedlab.Operation{Name: w.Op.Name, Vars: w.Op.Vars, Variables: w.Op.Variables}}
+	var rw func(sels []*fedlab.Sel, enc, kp string, depth int) []*fedlab.Sel
+	rw = func(sels []*fedlab.Sel, enc, kp string, depth int) []*fedlab.Sel {
 		if depth > 64 {
 			return sels
 		}
@@ -416,7 +477,7 @@ func (w *Walker) Reference(mode Mode, d Decisions) *Op {
 				if on == "" {
 					on = enc
 				}
-				s.Sels = rw(s.Sels, on, depth+1)
+				s.Sels = rw(s.Sels, on, kp, depth+1)
 				out = append(out, s)
 			case fedlab.SSpread:
 				out = append(out, s)
@@ -430,64 +491,52 @@ func (w *Walker) Reference(mode Mode, d Decisions) *Op {
 					out = append(out, s)
 					continue
 				}
-				s.Sels = rw(s.Sels, fd.Type.Base(), depth+1)
-				tf := enc + "." + s.Name
-				if !w.P[tf] {
-					out = append(out, s)
-					continue
-				}
 				key := s.Name
 				if s.Alias != "" {
 					key = s.Alias
 				}
+				ckp := kp + "/" + key
+				s.Sels = rw(s.Sels, fd.Type.Base(), ckp, depth+1)
 				twin := func(x *fedlab.Sel) *fedlab.Sel {
 					t := *x
 					t.Alias, t.Name = key, x.Name+TwinSuffix
 					return &t
 				}
-				switch mode {
-				case Pre:
-					if d[tf] {
-						out = append(out, twin(s))
-					} else {
-						out = append(out, s)
+				types := w.S.PossibleTypes(enc)
+				denied := map[string]bool{}
+				nd := 0
+				for _, t := range types {
+					tf := w.CoordOf(ckp, enc, t, s.Name)
+					if !w.P[tf] {
+						continue
 					}
-				case Post:
-					types := w.S.PossibleTypes(enc)
-					nd := 0
-					for _, t := range types {
-						if d[t+"."+s.Name] {
-							nd++
-						}
+					if (mode == Pre && d[tf]) || (mode == Post && d[t+"."+s.Name]) {
+						denied[t] = true
+						nd++
 					}
-					switch {
-					case nd == 0:
-						out = append(out, s)
-					case nd == len(types):
-						out = append(out, twin(s))
-					default:
-						for _, t := range types {
-							cp := *s
-							cp.Sels = cloneSelsDeep(s.Sels)
-							cp.Dirs = nil
-							var inner *fedlab.Sel = &cp
-							if d[t+"."+s.Name] {
-								inner = twin(&cp)
-							}
-							out = append(out, &fedlab.Sel{Kind: fedlab.SInline, On: t, Dirs: s.Dirs, Sels: []*fedlab.Sel{inner}})
-						}
-					}
-				default:
+				}
+				switch {
+				case nd == 0:
 					out = append(out, s)
+				case et.Kind == fedlab.KObject:
+					out = append(out, twin(s))
+				default:
+					for _, t := range types {
+						cp := *s
+						cp.Sels = cloneSelsDeep(s.Sels)
+						cp.Dirs = nil
+						var inner *fedlab.Sel = &cp
+						if denied[t] {
+							inner = twin(&cp)
+						}
+						out = append(out, &fedlab.Sel{Kind: fedlab.SInline, On: t, Dirs: s.Dirs, Sels: []*fedlab.Sel{inner}})
+					}
 				}
 			}
 		}
 		return out
 	}
-	c.Sels = rw(c.Sels, w.RootType(), 0)
-	for _, f := range c.Frags {
-		f.Sels = rw(f.Sels, f.On, 0)
-	}
+	c.Sels = rw(w.inlineSpreads(w.Op.Sels, 0), w.RootType(), "", 0)
 	return c
 }
 
@@ -499,4 +548,67 @@ func cloneSelsDeep(sels []*fedlab.Sel) []*fedlab.Sel {
 		out[i] = &c
 	}
 	return out
+}
+
+// CloneJ is a deep copy.
+func CloneJ(j *fedlab.J) *fedlab.J {
+	if j == nil {
+		return nil
+	}
+	c := &fedlab.J{Kind: j.Kind, Raw: j.Raw}
+	for _, x := range j.Items {
+		c.Items = append(c.Items, CloneJ(x))
+	}
+	for _, m := range j.Members {
+		c.Members = append(c.Members, fedlab.Member{Key: m.Key, Val: CloneJ(m.Val)})
+	}
+	return c
+}
+
+// GetAt returns the value at a response path (nil when the position does not exist).
+func GetAt(j *fedlab.J, p []PathEl) *fedlab.J {
+	for _, e := range p {
+		if j == nil {
+			return nil
+		}
+		if e.IsIdx {
+			if j.Kind != fedlab.JArr || e.Index >= len(j.Items) {
+				return nil
+			}
+			j = j.Items[e.Index]
+		} else {
+			j = j.Get(e.Key)
+		}
+	}
+	return j
+}
+
+// MaskAt returns a copy in which the positions that exist hold the marker string.
+func MaskAt(j *fedlab.J, paths [][]PathEl) *fedlab.J {
+	if j == nil || len(paths) == 0 {
+		return j
+	}
+	c := CloneJ(j)
+	for _, p := range paths {
+		if len(p) == 0 {
+			continue
+		}
+		parent := GetAt(c, p[:len(p)-1])
+		last := p[len(p)-1]
+		if parent == nil {
+			continue
+		}
+		if last.IsIdx {
+			if parent.Kind == fedlab.JArr && last.Index < len(parent.Items) {
+				parent.Items[last.Index] = fedlab.JS("<depends-on-denied>")
+			}
+		} else if parent.Kind == fedlab.JObj {
+			for i := range parent.Members {
+				if parent.Members[i].Key == last.Key {
+					parent.Members[i].Val = fedlab.JS("<depends-on-denied>")
+				}
+			}
+		}
+	}
+	return c
 }
